@@ -1,5 +1,6 @@
 import Driver.Proto
 import Driver.C06
+import Driver.C07
 namespace Driver
 
 def dispatch (op : String) : Option Handler :=
@@ -9,6 +10,13 @@ def dispatch (op : String) : Option Handler :=
   | "fromstring" => some C06.fromstring
   | "scan" => some C06.scan
   | "parsefloat" => some C06.parsefloat
+  | "bin7" => some C07.bin7
+  | "un7" => some C07.un7
+  | "modop" => some C07.modop
+  | "pow" => some C07.pow
+  | "imath" => some C07.imath
+  | "f64" => some C07.f64
+  | "f2i" => some C07.f2i
   | _ => none
 
 def processLine (line : String) : String :=
